@@ -1,10 +1,322 @@
 /-
 C12 — A created library matches the reference schema of its version.
+
+The property's quantifier is finite (versions × reference dumps × {disk, temporary});
+it is decided on every run by evaluating the Lean-defined comparison `schemaEq`
+(Spec/SchemaDump.lean over Spec/SqlCanon.lean) on the catalogs of the created and the
+hydrated reference libraries (tools/props/C12.py; in thorough tier additionally inside
+the kernel: Properties/C12Table.lean over Gen/SchemaFacts.lean).
+
+This file holds what makes that evaluation mean "equal modulo whitespace and identifier
+quoting — and nothing else":
+
+* Part 1 (`canon`): the lexer is lossless and a bijection onto well-formed lexeme
+  lists (`unlex_lex`, `lex_wf`, `lex_unlex`), `canon` is "drop whitespace/comment
+  lexemes, forget the quoting style of identifiers" on that faithful representation
+  (`canon_unlex`), hence invariant under insertion / removal of whitespace between
+  tokens and under the three quoting styles (`canon_ws_insert`, `canon_requote`,
+  `canon_quote_bare`), and injective otherwise (`canon_eq_iff`: equal canon ⇔ the
+  significant lexemes agree pairwise up to identifier quoting).
+
+* Part 2 (`schemaEq`): it is an equivalence relation, and it holds exactly when the
+  `(db, type, name, tbl_name, canon sql)` sets, the `table_info` column lists (ordered)
+  and the index descriptions agree (`schemaEq_iff`, with the projections
+  `schemaEq_master`, `schemaEq_columns`, `schemaEq_indexes`, `schemaEq_sql`).
 -/
 import EngineModel.Spec.SqlCanon
 import EngineModel.Spec.SchemaDump
+import Proofs.SqlCanon
 
 namespace EngineModel.Properties.C12
 open EngineModel.Spec.SqlCanon EngineModel.Spec.SchemaDump
+
+/-! ## Part 1 — `canon` forgets whitespace and identifier quoting, nothing else -/
+
+/-- The lexer loses nothing: the source text is the concatenation of its lexemes. -/
+theorem lex_lossless (s : List Char) : unlex (lex s) = s := unlex_lex s
+
+/-- Every lexeme list produced by the lexer is well formed … -/
+theorem lex_wellformed (s : List Char) : LexWf (lex s) = true := lex_wf s
+
+/-- … and every well-formed lexeme list is the lexing of its own text: `lex` and `unlex`
+are mutually inverse bijections between texts and well-formed lexeme lists. -/
+theorem lex_bijective {ls : List Lexeme} (h : LexWf ls = true) : lex (unlex ls) = ls := lex_unlex h
+
+/-- `canon` of a text, read off any well-formed lexeme list that spells it. -/
+theorem canon_of_lexemes {ls : List Lexeme} (h : LexWf ls = true) :
+    canonChars (unlex ls) = ls.filterMap strip := canon_unlex h
+
+/-- `canon` is by definition a map (`filterMap strip`) over the lossless token stream. -/
+theorem canon_def (s : String) : canon s = (lex s.toList).filterMap strip := rfl
+
+/-- Lexemes `canon` drops: whitespace runs and comments. -/
+def insignificant : Lexeme → Bool
+  | .ws _ => true
+  | .lineComment _ _ => true
+  | .blockComment _ _ => true
+  | _ => false
+
+theorem strip_none_iff (l : Lexeme) : strip l = none ↔ insignificant l = true := by
+  cases l <;> simp [strip, insignificant]
+
+/-- Inserting (or removing) a whitespace run or a comment between two tokens does not
+change `canon` — whenever the text with and the text without it lex at that boundary
+(i.e. both lexeme lists are well formed: the insertion does not glue or split tokens). -/
+theorem canon_ws_insert {l₁ l₂ : List Lexeme} {w : Lexeme} (hw : insignificant w = true)
+    (h₀ : LexWf (l₁ ++ l₂) = true) (h₁ : LexWf (l₁ ++ w :: l₂) = true) :
+    canonChars (unlex (l₁ ++ w :: l₂)) = canonChars (unlex (l₁ ++ l₂)) := by
+  rw [canon_unlex h₀, canon_unlex h₁]
+  have : strip w = none := (strip_none_iff w).2 hw
+  simp [List.filterMap_append, List.filterMap_cons, this]
+
+/-- Changing the quoting style of an identifier (`[x]`, `"x"`, `` `x` ``) does not change `canon`. -/
+theorem canon_requote {l₁ l₂ : List Lexeme} {st st' : QStyle} {c : List Char}
+    (h₀ : LexWf (l₁ ++ .quoted st c :: l₂) = true) (h₁ : LexWf (l₁ ++ .quoted st' c :: l₂) = true) :
+    canonChars (unlex (l₁ ++ .quoted st c :: l₂)) = canonChars (unlex (l₁ ++ .quoted st' c :: l₂)) := by
+  rw [canon_unlex h₀, canon_unlex h₁]
+  simp [List.filterMap_append, List.filterMap_cons, strip]
+
+/-- Quoting a bare identifier (or removing the quotes) does not change `canon`. -/
+theorem canon_quote_bare {l₁ l₂ : List Lexeme} {st : QStyle} {c : List Char}
+    (h₀ : LexWf (l₁ ++ .bare c :: l₂) = true) (h₁ : LexWf (l₁ ++ .quoted st c :: l₂) = true) :
+    canonChars (unlex (l₁ ++ .bare c :: l₂)) = canonChars (unlex (l₁ ++ .quoted st c :: l₂)) := by
+  rw [canon_unlex h₀, canon_unlex h₁]
+  simp [List.filterMap_append, List.filterMap_cons, strip]
+
+/-- Two significant lexemes that `canon` identifies: the same lexeme, or two spellings
+(bare or quoted in any style) of the same identifier. -/
+def sameTok (a b : Lexeme) : Prop :=
+  a = b ∨ ∃ c, (a = .bare c ∨ ∃ st, a = .quoted st c) ∧ (b = .bare c ∨ ∃ st, b = .quoted st c)
+
+theorem strip_eq_iff {a b : Lexeme} (ha : insignificant a = false) (hb : insignificant b = false) :
+    strip a = strip b ↔ sameTok a b := by
+  cases a <;> cases b <;> simp_all [strip, insignificant, sameTok] <;>
+    first | exact eq_comm | (constructor <;> intro h <;> first | exact h.symm | (rcases h with h | h <;> first | exact h.2 | exact h.symm) | (exact Or.inr h.symm))
+
+/-- The two lexeme lists have the same length and agree position by position up to `sameTok`. -/
+inductive Agree : List Lexeme → List Lexeme → Prop
+  | nil : Agree [] []
+  | cons {a b : Lexeme} {as bs : List Lexeme} : sameTok a b → Agree as bs → Agree (a :: as) (b :: bs)
+
+theorem agree_cons_iff {a b : Lexeme} {as bs : List Lexeme} :
+    Agree (a :: as) (b :: bs) ↔ sameTok a b ∧ Agree as bs :=
+  ⟨fun h => by cases h with | cons h₁ h₂ => exact ⟨h₁, h₂⟩, fun h => .cons h.1 h.2⟩
+
+theorem agree_nil_cons {b : Lexeme} {bs : List Lexeme} : ¬ Agree [] (b :: bs) := fun h => nomatch h
+theorem agree_cons_nil {a : Lexeme} {as : List Lexeme} : ¬ Agree (a :: as) [] := fun h => nomatch h
+
+/-- The significant lexemes of a text. -/
+def significant (s : List Char) : List Lexeme := (lex s).filter fun l => !insignificant l
+
+theorem filterMap_strip_eq_iff (xs ys : List Lexeme)
+    (hx : ∀ l ∈ xs, insignificant l = false) (hy : ∀ l ∈ ys, insignificant l = false) :
+    xs.filterMap strip = ys.filterMap strip ↔ Agree xs ys := by
+  induction xs generalizing ys with
+  | nil =>
+    cases ys with
+    | nil => exact ⟨fun _ => .nil, fun _ => rfl⟩
+    | cons y ys =>
+      have hy' := hy y (by simp)
+      have : ∃ t, strip y = some t := by
+        cases h : strip y with
+        | none => rw [strip_none_iff] at h; simp [h] at hy'
+        | some t => exact ⟨t, rfl⟩
+      obtain ⟨t, ht⟩ := this
+      simp [ht, agree_nil_cons]
+  | cons x xs ih =>
+    have hx' := hx x (by simp)
+    obtain ⟨t, ht⟩ : ∃ t, strip x = some t := by
+      cases h : strip x with
+      | none => rw [strip_none_iff] at h; simp [h] at hx'
+      | some t => exact ⟨t, rfl⟩
+    cases ys with
+    | nil => simp [ht, agree_cons_nil]
+    | cons y ys =>
+      have hy' := hy y (by simp)
+      obtain ⟨u, hu⟩ : ∃ u, strip y = some u := by
+        cases h : strip y with
+        | none => rw [strip_none_iff] at h; simp [h] at hy'
+        | some u => exact ⟨u, rfl⟩
+      have ih' := ih ys (fun l hl => hx l (by simp [hl])) (fun l hl => hy l (by simp [hl]))
+      rw [agree_cons_iff, ← ih', ← strip_eq_iff hx' hy']
+      simp [ht, hu]
+
+theorem filterMap_strip_filter (xs : List Lexeme) :
+    (xs.filter fun l => !insignificant l).filterMap strip = xs.filterMap strip := by
+  induction xs with
+  | nil => rfl
+  | cons x xs ih =>
+    cases h : insignificant x with
+    | true =>
+      have : strip x = none := (strip_none_iff x).2 h
+      simp [h, this, ih]
+    | false =>
+      simp only [List.filter_cons, h, Bool.not_false, if_true, List.filterMap_cons, ih]
+
+/-- **Injective otherwise.**  Two texts have the same `canon` exactly when their
+significant lexemes (everything except whitespace and comments, read off the lossless
+lexing) agree one by one up to the spelling — bare or quoted, in whichever style — of
+identifiers.  So a difference in any keyword, identifier content, case, string literal,
+number, operator or punctuation is a difference of `canon`. -/
+theorem canon_eq_iff (s t : List Char) :
+    canonChars s = canonChars t ↔ Agree (significant s) (significant t) := by
+  unfold canonChars significant
+  rw [← filterMap_strip_filter (lex s), ← filterMap_strip_filter (lex t)]
+  apply filterMap_strip_eq_iff <;>
+  · intro l hl
+    have := (List.mem_filter.1 hl).2
+    simpa using this
+
+/-- The same, for the `String` entry point used by `schemaEq`. -/
+theorem canon_string_eq_iff (s t : String) :
+    canon s = canon t ↔ Agree (significant s.toList) (significant t.toList) :=
+  canon_eq_iff s.toList t.toList
+
+/-- Every `canon` value has a canonical text (`render`: tokens separated by single blanks,
+identifiers bare where possible and double-quoted otherwise) with the same `canon`; so
+`canon` is a retraction of texts onto well-formed token lists, `render` its section. -/
+theorem canon_render_canon (s : List Char) : canonChars (render (canonChars s)) = canonChars s :=
+  canon_render (canon_tokWf s)
+
+/-- Every well-formed token list is the `canon` of some text. -/
+theorem canon_surjective {ts : List Token} (h : TokWf ts = true) : ∃ s, canonChars s = ts :=
+  ⟨render ts, canon_render h⟩
+
+/-! non-vacuity: concrete texts satisfying the hypotheses / showing both directions -/
+
+example : LexWf ([.bare "a".toList, .ws " ".toList, .bare "b".toList]) = true := by decide +kernel
+example : canon "CREATE TABLE [T] (\"a\" INTEGER ,`b` TEXT)" = canon "create TABLE T(a INTEGER, b TEXT)" → False := by
+  decide +kernel
+example : canon "CREATE TABLE [T] (\"a\" INTEGER ,`b` TEXT)" = canon "CREATE   TABLE T(a INTEGER, b TEXT) -- c" := by
+  decide +kernel
+example : canon "x 'a b'" ≠ canon "x 'a  b'" := by decide +kernel
+example : canon "trigger_after_update_PerformanceDataAFTER UPDATE" ≠ canon "trigger_after_update_PerformanceData AFTER UPDATE" := by
+  decide +kernel
+
+/-! ## Part 2 — `schemaEq` -/
+
+section sets
+variable {α : Type} [DecidableEq α]
+
+theorem subsetB_iff (xs ys : List α) : subsetB xs ys = true ↔ ∀ x ∈ xs, x ∈ ys := by
+  simp [subsetB, List.all_eq_true]
+
+theorem sameSet_iff (xs ys : List α) :
+    sameSet xs ys = true ↔ (∀ x, x ∈ xs ↔ x ∈ ys) ∧ xs.length = ys.length := by
+  simp only [sameSet, Bool.and_eq_true, subsetB_iff, beq_iff_eq]
+  constructor
+  · rintro ⟨⟨h1, h2⟩, h3⟩
+    exact ⟨fun x => ⟨h1 x, h2 x⟩, h3⟩
+  · rintro ⟨h, h3⟩
+    exact ⟨⟨fun x => (h x).1, fun x => (h x).2⟩, h3⟩
+
+theorem sameSet_refl (xs : List α) : sameSet xs xs = true := by
+  rw [sameSet_iff]; exact ⟨fun _ => Iff.rfl, rfl⟩
+
+theorem sameSet_symm {xs ys : List α} (h : sameSet xs ys = true) : sameSet ys xs = true := by
+  rw [sameSet_iff] at *; exact ⟨fun x => (h.1 x).symm, h.2.symm⟩
+
+theorem sameSet_trans {xs ys zs : List α} (h₁ : sameSet xs ys = true) (h₂ : sameSet ys zs = true) :
+    sameSet xs zs = true := by
+  rw [sameSet_iff] at *; exact ⟨fun x => (h₁.1 x).trans (h₂.1 x), h₁.2.trans h₂.2⟩
+
+end sets
+
+/-- What `schemaEq` says, spelled out: the canonicalised `sqlite_master` rows
+`(db, type, name, tbl_name, canon sql)`, the `table_info` descriptions (columns in `cid`
+order with type, notnull, default, pk) and the index descriptions (unique, origin,
+partial, columns in order) of the two catalogs are the same sets, of the same sizes. -/
+theorem schemaEq_iff (a b : Dump) :
+    schemaEq a b = true ↔
+      ((∀ r, r ∈ (canonDump a).master ↔ r ∈ (canonDump b).master) ∧
+        (canonDump a).master.length = (canonDump b).master.length) ∧
+      ((∀ t, t ∈ a.tables ↔ t ∈ b.tables) ∧ a.tables.length = b.tables.length) ∧
+      ((∀ i, i ∈ (canonDump a).indexes ↔ i ∈ (canonDump b).indexes) ∧
+        (canonDump a).indexes.length = (canonDump b).indexes.length) := by
+  simp only [schemaEq, cdumpEq, Bool.and_eq_true, sameSet_iff, and_assoc]
+  rfl
+
+theorem schemaEq_refl (a : Dump) : schemaEq a a = true := by
+  simp [schemaEq, cdumpEq, sameSet_refl]
+
+theorem schemaEq_symm {a b : Dump} (h : schemaEq a b = true) : schemaEq b a = true := by
+  simp only [schemaEq, cdumpEq, Bool.and_eq_true] at *
+  exact ⟨⟨sameSet_symm h.1.1, sameSet_symm h.1.2⟩, sameSet_symm h.2⟩
+
+theorem schemaEq_trans {a b c : Dump} (h₁ : schemaEq a b = true) (h₂ : schemaEq b c = true) :
+    schemaEq a c = true := by
+  simp only [schemaEq, cdumpEq, Bool.and_eq_true] at *
+  exact ⟨⟨sameSet_trans h₁.1.1 h₂.1.1, sameSet_trans h₁.1.2 h₂.1.2⟩, sameSet_trans h₁.2 h₂.2⟩
+
+/-- `schemaEq` is an equivalence relation on catalog dumps. -/
+theorem schemaEq_equivalence : Equivalence fun a b : Dump => schemaEq a b = true :=
+  ⟨schemaEq_refl, schemaEq_symm, schemaEq_trans⟩
+
+/-- Equal `(db, type, name, tbl_name, canon sql)` sets. -/
+theorem schemaEq_master {a b : Dump} (h : schemaEq a b = true) (r : CMasterRow) :
+    r ∈ a.master.map canonRow ↔ r ∈ b.master.map canonRow :=
+  ((schemaEq_iff a b).1 h).1.1 r
+
+/-- Every object of one catalog has a counterpart in the other with the same database,
+type, name, table and the same DDL modulo whitespace and identifier quoting. -/
+theorem schemaEq_sql {a b : Dump} (h : schemaEq a b = true) {r : MasterRow} (hr : r ∈ a.master) :
+    ∃ r' ∈ b.master, r'.db = r.db ∧ r'.type = r.type ∧ r'.name = r.name ∧ r'.tbl = r.tbl ∧
+      r'.sql.map canonChars = r.sql.map canonChars := by
+  have := (schemaEq_master h (canonRow r)).1 (List.mem_map_of_mem hr)
+  obtain ⟨r', hr', e⟩ := List.mem_map.1 this
+  refine ⟨r', hr', ?_⟩
+  simp only [canonRow, CMasterRow.mk.injEq] at e
+  exact e
+
+/-- Equal `table_info` descriptions: every table / view has the same columns — names,
+declared types, nullability, defaults, key membership — in the same order. -/
+theorem schemaEq_columns {a b : Dump} (h : schemaEq a b = true) (t : TableCols) :
+    t ∈ a.tables ↔ t ∈ b.tables :=
+  ((schemaEq_iff a b).1 h).2.1.1 t
+
+/-- Equal index descriptions per table (name, uniqueness, origin, partiality, columns in order). -/
+theorem schemaEq_indexes {a b : Dump} (h : schemaEq a b = true) (i : Str × Str × Index) :
+    i ∈ (canonDump a).indexes ↔ i ∈ (canonDump b).indexes :=
+  ((schemaEq_iff a b).1 h).2.2.1 i
+
+/-- Equal numbers of objects (so a duplicated object is seen). -/
+theorem schemaEq_sizes {a b : Dump} (h : schemaEq a b = true) :
+    a.master.length = b.master.length ∧ a.tables.length = b.tables.length := by
+  have := (schemaEq_iff a b).1 h
+  exact ⟨by simpa [canonDump] using this.1.2, this.2.1.2⟩
+
+/-- `schemaEq` does not look at the stored DDL beyond its `canon`: rewriting the DDL of
+any objects into texts with the same `canon` (e.g. re-spacing, re-quoting identifiers)
+leaves the two dumps `schemaEq`. -/
+theorem schemaEq_of_canon_eq {a b : Dump} (hm : a.master.map canonRow = b.master.map canonRow)
+    (ht : a.tables = b.tables) (hi : a.indexes = b.indexes) : schemaEq a b = true := by
+  have : canonDump a = canonDump b := by simp [canonDump, hm, ht, hi]
+  simp [schemaEq, this, cdumpEq, sameSet_refl]
+
+/-- A single object whose DDL differs beyond whitespace and quoting (no counterpart with
+equal `canon`) makes the comparison fail. -/
+theorem schemaEq_detects {a b : Dump} {r : MasterRow} (hr : r ∈ a.master)
+    (hno : ∀ r' ∈ b.master, canonRow r' ≠ canonRow r) : schemaEq a b = false := by
+  cases h : schemaEq a b with
+  | false => rfl
+  | true =>
+    obtain ⟨r', hr', e⟩ := List.mem_map.1 ((schemaEq_master h (canonRow r)).1 (List.mem_map_of_mem hr))
+    exact absurd e (hno r' hr')
+
+/-! non-vacuity -/
+
+private def dA : Dump :=
+  ⟨[⟨"main".toList, "table".toList, "T".toList, "T".toList, some "CREATE TABLE T ( [a] INTEGER )".toList⟩],
+   [⟨"main".toList, "T".toList, [⟨"a".toList, "INTEGER".toList, 0, none, 0⟩]⟩], []⟩
+private def dB : Dump :=
+  ⟨[⟨"main".toList, "table".toList, "T".toList, "T".toList, some "CREATE TABLE \"T\"(a   INTEGER)".toList⟩],
+   [⟨"main".toList, "T".toList, [⟨"a".toList, "INTEGER".toList, 0, none, 0⟩]⟩], []⟩
+private def dC : Dump :=
+  ⟨[⟨"main".toList, "table".toList, "T".toList, "T".toList, some "CREATE TABLE T ( [a] TEXT )".toList⟩],
+   [⟨"main".toList, "T".toList, [⟨"a".toList, "TEXT".toList, 0, none, 0⟩]⟩], []⟩
+
+example : schemaEq dA dB = true := by decide +kernel
+example : dA ≠ dB := by decide +kernel
+example : schemaEq dA dC = false := by decide +kernel
 
 end EngineModel.Properties.C12
